@@ -45,6 +45,9 @@ type namedKey string
 // a named string type as a value
 type namedString string
 
+// a named bool type
+type namedBool bool
+
 // NamedString returns s as a value of a named string type.
 func NamedString(s string) any { return namedString(s) }
 
@@ -78,6 +81,8 @@ func Universe() []UVal {
 	u := []UVal{
 		specU("nil", SNil()),
 		specU("true", SBool(true)),
+		specU("named false", withRep(SBool(false), "named")),
+		specU("named true", withRep(SBool(true), "named")),
 		specU("false", SBool(false)),
 		specU("0", SInt(0)),
 		specU("1", SInt(1)),
@@ -173,6 +178,8 @@ func Universe() []UVal {
 		rawU("[]map[named]any", func() any { return []any{map[namedKey]any{"k": 2}, map[namedKey]any{"k": 1}} }),
 		rawU("named-string", func() any { return namedString("en") }),
 		rawU("nil*Drop", func() any { var p *Drop; return p }),
+		rawU("[nil*Drop]", func() any { var p *Drop; return []any{p, 1} }),
+		rawU("{k:nil*Drop}", func() any { var p *Drop; return map[string]any{"k": p, "title": p} }),
 		rawU("[]map[any]any", func() any { return []any{map[any]any{"k": "b", 1: 2}, map[any]any{"k": "a"}} }),
 		rawU("map[any]any", func() any { return map[any]any{"x": 1, 2: "two", 2.5: []any{1}} }),
 		rawU("*time", func() any { t := time.Date(2024, 2, 29, 13, 14, 15, 0, time.FixedZone("X", 3600)); return &t }),
